@@ -118,6 +118,8 @@ def faults_for(doc):
         for j, td in enumerate(sd.get('transitions', [])):
             F.append(('unknown target on transition %d of %s' % (j, n), ('target', i, j),
                       lambda d, i=i, j=j: at(i)(d)['transitions'][j].__setitem__('target', 'zz_unknown')))
+            F.append(('empty target on transition %d of %s' % (j, n), ('target', i, j),
+                      lambda d, i=i, j=j: at(i)(d)['transitions'][j].__setitem__('target', '')))
             F.append(('unknown key on transition %d of %s' % (j, n), ('tkey', i, j),
                       lambda d, i=i, j=j: at(i)(d)['transitions'][j].__setitem__('colour', 'red')))
             F.append(('unknown priority word on transition %d of %s' % (j, n), ('prio', i, j),
